@@ -313,7 +313,7 @@ fn rendezvous_witness(frag: Option<String>) -> i32 {
             }
             g.0 += 1;
             cv.notify_all();
-            let deadline = Instant::now() + Duration::from_secs(4);
+            let deadline = Instant::now() + Duration::from_secs(10);
             while g.0 < self.w && g.1 == round {
                 let left = deadline.saturating_duration_since(Instant::now());
                 if left.is_zero() || self.failed.load(Ordering::SeqCst) {
@@ -383,7 +383,7 @@ fn rendezvous_witness(frag: Option<String>) -> i32 {
             }
         }
     }
-    let out = json!({"engine":"E4 real-rayon witness","what":"rendezvous of w side-by-side systems on the unmodified crate and a real rayon pool of w threads (bounded wait of 4 s, one retry), 2 dispatches","configurations": results.len(), "failures": failures, "results": results, "wall_s": t0.elapsed().as_secs_f64()});
+    let out = json!({"engine":"E4 real-rayon witness","what":"rendezvous of w side-by-side systems on the unmodified crate and a real rayon pool of w threads (bounded wait of 10 s, one retry), 2 dispatches","configurations": results.len(), "failures": failures, "results": results, "wall_s": t0.elapsed().as_secs_f64()});
     if let Some(p) = frag {
         std::fs::write(p, serde_json::to_string_pretty(&out).unwrap()).unwrap();
     }
